@@ -56,6 +56,10 @@ var (
 // Aliases lists the renames recognised by the last Load (for the report).
 func (p *Program) Aliases() []string { return p.aliases }
 
+// FieldName is the name rules and obligation keys use for a field: the
+// baseline name when the field was recognised as renamed.
+func FieldName(f *types.Var) string { return fieldDisplayName(f) }
+
 func fieldDisplayName(f *types.Var) string {
 	fieldAliasMu.RLock()
 	a, ok := fieldAlias[f]
